@@ -681,6 +681,7 @@ def main(argv=None):
     }
     for k, v in extra.items():
         coverage[k] = dict(v) if isinstance(v, Counter) else v
+    coverage["generator_gaps"] = [l for l in getattr(mod, "REQUIRED_LABELS", {}).get(tier, []) if labels.get(l, 0) == 0]
     exh = getattr(mod, "exhaustive", None)
     if callable(exh):
         coverage["exhaustive"] = bool(exh(tier))
@@ -705,12 +706,21 @@ def main(argv=None):
         for d, e in errors:
             print("HARNESS-ERROR: shard %s failed:\n%s" % (canon(d)[:200], e))
         rc = 2
-    # required labels (generator health): missing ones are a harness error in thorough
+    # generator health: the classes of cases a check expects to see.  Classes listed in HARD_LABELS are
+    # produced deterministically (enumerations, fixed shards): their absence is a harness error.  The
+    # others depend on random draws; a run that happens to miss one is reported (GENERATOR-GAP line,
+    # coverage.generator_gaps in the evidence) but is not a failure of the tree under test.
     req = getattr(mod, "REQUIRED_LABELS", {}).get(tier, [])
+    hard = set(getattr(mod, "HARD_LABELS", []))
     missing = [l for l in req if labels.get(l, 0) == 0]
     if missing and not buckets:
-        print("HARNESS-ERROR: generator never produced classes: %s" % missing)
-        rc = 2
+        fatal = [l for l in missing if l in hard]
+        if fatal:
+            print("HARNESS-ERROR: generator never produced classes: %s" % fatal)
+            rc = 2
+        soft = [l for l in missing if l not in hard]
+        if soft:
+            print("GENERATOR-GAP: this run (seed %d) drew no case of class(es): %s" % (seed, soft))
     for key, n in sorted(known_hits.items()):
         ent = next((e for e in known if e["key"] == key), {})
         print(
